@@ -305,6 +305,10 @@ def run(ctx):
     _r3(ctx)
     _r4(ctx)
     _r5(ctx)
+    # R7: lines without a mnemonic (comments, labels, directives) inside the kernel are transparent for the multi-process LCD search too
+    from . import c16
+    ctx.rule("R7", "the multi-process LCD search covers every line of the kernel, whatever kind of line it is (C16-R1)")
+    c16.reuse_r1(ctx, "R7", "inserting comment / label / directive lines into a kernel of 50 or more lines changes the reported loop-carried dependencies")
     # R6: --lines selects by the parsed lines' line_number: it names the file's lines only if the numbering is the physical one
     from . import parsers as P
     P.r1_numbering(ctx, rule="R6")
